@@ -408,6 +408,8 @@ def run_C16(tier, seed):
     big = stages.api_stage("C16", "batch", tier, seed, groups=("rist",), scale="2:256", scale_min=0, limit=60 if q else 600)
     big.name = "api:batch@256"
     res.append(big)
+    # no panic either when several threads use one fresh parameter object for the first time, or verify at the same instant
+    res.append(stages.race_stage("C16", tier, seed))
     return res
 
 
@@ -473,6 +475,11 @@ def run_C09(tier, seed):
     # masks stay aligned and exact beyond the chunk limit
     # batches of 21-40 members mixing aggregated, seeded (either seed, either side) and plain members: masks exact and aligned
     res.append(stages.api_stage("C09", "long", tier, seed))
+    # ... and expanded to the real chunk size: a dozen chunks and more, the last one partial (thousands of members, every mask in place)
+    many = stages.api_stage("C09", "long", tier, seed, groups=("rist",), scale="2:256", scale_min=0, limit=3 if q else 24,
+                            filter_fn=lambda s: s["sc"]["mode"] == "RecoverAndVerify")
+    many.name = "api:long@256"
+    res.append(many)
     big = stages.api_stage("C09", "batch", tier, seed, groups=("rist",), scale="2:256", scale_min=0, limit=40 if q else 400,
                            filter_fn=lambda s: s["sc"]["mode"] == "RecoverAndVerify" and s["expect"]["verify"] == "ok" and "exact" in s["expect"]["masks"],
                            must_fn=lambda s: len(s["sc"]["members"]) >= 5)          # (always: batches of three chunks and more)
